@@ -12,8 +12,10 @@
 //        9 = cache node: make every redis command fail (val = 1) / work again (val = 0)
 //   key:  key%1000 is the key string, key/1000 the INSTANCE (0 or 1): every primitive / cache exists
 //         twice, the two instances must not share anything.
-//   err:  0 = nil, > 0 = that error code (9 = the cache node's not-found error), -2 = the
-//         user function PANICS (after its gate).
+//         key%1000 == 0 is the EMPTY key string.
+//   val:  -1 = the user function returns a nil value (kinds 0, 1, 3, 4)
+//   err:  0 = nil, > 0 = that error code (9 = the cache node's not-found error, 19 = the same
+//         wrapped with %w), -2 = the user function PANICS (after its gate).
 // Events (logical clock): inv (call invoked), fs / fe (user function started / ended),
 //   ret [val, err, fresh] (call returned; err -2 = the call panicked), del, fault.
 //   The user function parks at gate "fn" between fs and fe.
@@ -28,6 +30,7 @@ import (
 	"fmt"
 	"io"
 	"strconv"
+	"strings"
 	"sync"
 	"sync/atomic"
 	"time"
@@ -66,9 +69,25 @@ type codeErr int64
 func (e codeErr) Error() string { return "e" + strconv.FormatInt(int64(e), 10) }
 
 const (
-	codeNotFound = 9
-	codePanic    = -2
+	codeNotFound        = 9
+	codeWrappedNotFound = 19
+	codePanic           = -2
 )
+
+func keyString(key int64) string {
+	if key%1000 == 0 {
+		return ""
+	}
+	return "k" + strconv.FormatInt(key%1000, 10)
+}
+
+// what a user function returns as its value: nil for -1
+func userVal(val int64) any {
+	if val == -1 {
+		return nil
+	}
+	return val
+}
 
 var errNotFound = errors.New("verif: not found")
 
@@ -131,7 +150,13 @@ func (r *res) Close() error {
 	return nil
 }
 
-const stepTimeout = 5 * time.Second
+const stepTimeout = 3 * time.Second
+
+// time spent waiting in vain for quiescence; beyond hangBudget the remaining cases are skipped
+// (reported as such, judged by nobody) so that a hanging implementation fails fast
+var hangSpent time.Duration
+
+const hangBudget = 40 * time.Second
 
 // one set of primitives; a case uses up to two of them
 type instance struct {
@@ -154,7 +179,7 @@ func runRmSeq(c Case) (out Out) {
 	rm := syncx.NewResourceManager()
 	var closed []int64
 	for _, op := range c.RmSeq {
-		ks := "k" + strconv.FormatInt(op[1], 10)
+		ks := keyString(op[1])
 		switch op[0] {
 		case 0:
 			created := int64(0)
@@ -199,7 +224,18 @@ func runCase(c Case) (out Out) {
 		return runRmSeq(c)
 	}
 	out.ID = c.ID
+	if hangSpent > hangBudget {
+		out.Err = "skipped"
+		return out
+	}
 	ctl := sched.New(c.Free)
+	// A goroutine waiting for a sync.Mutex inside core/syncx while every other goroutine is parked
+	// or blocked (that is the only situation in which the controller asks) cannot get it before
+	// somebody is released: it is blocked, not "about to run".  The code under test holds its
+	// locks for a few instructions only, so there this never happens; a variant that queues callers
+	// on a mutex held across the user function is then seen as what it is (blocked callers)
+	// instead of timing out.
+	ctl.MutexBlocked = func(stack string) bool { return strings.Contains(stack, "/core/syncx.") }
 
 	var insts [2]*instance
 	inst := func(key int64) *instance {
@@ -216,7 +252,12 @@ func runCase(c Case) (out Out) {
 		for _, op := range sc {
 			in := inst(op[1])
 			if (op[0] == 4 || op[0] == 6) && in.cc == nil {
-				in.cc, _ = collection.NewCache(time.Hour)
+				if op[1] >= 1000 {
+					// the second instance is configured: name and an LRU limit (eviction = reload)
+					in.cc, _ = collection.NewCache(time.Hour, collection.WithName("verif2"), collection.WithLimit(2))
+				} else {
+					in.cc, _ = collection.NewCache(time.Hour)
+				}
 			}
 			if (op[0] == 5 || op[0] == 7 || op[0] == 8 || op[0] == 9) && in.node == nil {
 				var err error
@@ -226,7 +267,14 @@ func runCase(c Case) (out Out) {
 					return out
 				}
 				defer in.mini.Close()
-				in.node = cache.NewNode(redis.New(in.mini.Addr()), syncx.NewSingleFlight(), cache.NewStat("verif"), errNotFound)
+				rds := redis.New(in.mini.Addr())
+				rds.Ping() // dial now: the first command of an actor must not wait for a TCP handshake
+				if op[1] >= 1000 {
+					in.node = cache.NewNode(rds, syncx.NewSingleFlight(), cache.NewStat("verif2"), errNotFound,
+						cache.WithExpiry(time.Minute), cache.WithNotFoundExpiry(time.Minute))
+				} else {
+					in.node = cache.NewNode(rds, syncx.NewSingleFlight(), cache.NewStat("verif"), errNotFound)
+				}
 				ctl.MinQuiet = 3 * time.Millisecond
 			}
 		}
@@ -292,12 +340,12 @@ func runCase(c Case) (out Out) {
 		}()
 		kind, key, val, e := op[0], op[1], op[2], op[3]
 		in := inst(key)
-		ks := "k" + strconv.FormatInt(key%1000, 10)
+		ks := keyString(key)
 		switch kind {
 		case 0, 3:
 			fn := func() (any, error) {
 				body(tid, i, 0, key, e)
-				return val, mkErr(e)
+				return userVal(val), mkErr(e)
 			}
 			if kind == 0 {
 				v, f, err := in.sf.DoEx(ks, fn)
@@ -313,13 +361,13 @@ func runCase(c Case) (out Out) {
 		case 1:
 			v, err := in.lc.Do(ks, func() (any, error) {
 				body(tid, i, 1, key, e)
-				return val, mkErr(e)
+				return userVal(val), mkErr(e)
 			})
 			ctl.Log(tid, "ret", i, asInt(v), errCode(err), -1)
 		case 4:
 			v, err := in.cc.Take(ks, func() (any, error) {
 				body(tid, i, 4, key, e)
-				return val, mkErr(e)
+				return userVal(val), mkErr(e)
 			})
 			ctl.Log(tid, "ret", i, asInt(v), errCode(err), -1)
 		case 5, 8:
@@ -328,6 +376,9 @@ func runCase(c Case) (out Out) {
 				body(tid, i, 5, key, e)
 				if e == codeNotFound {
 					return errNotFound
+				}
+				if e == codeWrappedNotFound {
+					return fmt.Errorf("wrapped: %w", errNotFound)
 				}
 				if e != 0 {
 					return mkErr(e)
@@ -418,6 +469,7 @@ func runCase(c Case) (out Out) {
 	var ok bool
 	out.Init, ok = ctl.Start(stepTimeout)
 	if !ok {
+		hangSpent += stepTimeout
 		out.Err = "no quiescence at start"
 		ctl.Abort()
 		return out
@@ -426,6 +478,7 @@ func runCase(c Case) (out Out) {
 		o, ok := ctl.Step(a, stepTimeout)
 		out.Steps = append(out.Steps, o)
 		if !ok {
+			hangSpent += stepTimeout
 			out.Err = "no quiescence"
 			ctl.Abort()
 			return out
@@ -434,6 +487,7 @@ func runCase(c Case) (out Out) {
 	rest, ok := ctl.Drain(stepTimeout, 10000)
 	out.Steps = append(out.Steps, rest...)
 	if !ok {
+		hangSpent += stepTimeout
 		out.Err = "drain did not finish"
 		ctl.Abort()
 	}
